@@ -557,3 +557,5 @@ def run(tier, seed):
 
 
 RULE += (' Batches containing evaluated designs as a store hands them out (to_dict / JSON / from_dict), serial and parallel; sweeps of 1..9 designs under five settings of the inherited max_population_size / max_population_number / max_processes options.')
+
+RULE += (' Beyond small: batches of 31..1025 designs, serial and parallel, with loaded designs; objectives that return numpy arrays, tuples, zeros, non-finite values, surplus outputs, and designs 3e-9 apart, as a batch and as a sweep, serial and parallel.')
